@@ -60,7 +60,11 @@ def parseOp (l : Line) : Option Op :=
   | "set_all" => (l.nat? "o").map .setAll
   | "reset_all" => (l.nat? "o").map .resetAll
   | "flip_all" => (l.nat? "o").map .flipAll
-  | "set" => do pure (.set (← l.nat? "o") (← l.nat? "pos") (← boolArg l "v"))
+  | "set" =>
+    -- `v` absent: `set(pos)` / `unchecked_set(pos)` with the value defaulted
+    match boolArg l "v" with
+    | some v => do pure (.set (← l.nat? "o") (← l.nat? "pos") v)
+    | Option.none => do pure (.setD (← l.nat? "o") (← l.nat? "pos"))
   | "reset" => do pure (.reset (← l.nat? "o") (← l.nat? "pos"))
   | "flip" => do pure (.flip (← l.nat? "o") (← l.nat? "pos"))
   | "ref_assign" => do pure (.refAssign (← l.nat? "o") (← l.nat? "pos") (← boolArg l "v"))
@@ -76,24 +80,39 @@ def parseOp (l : Line) : Option Op :=
   | "not" => do pure (.not (← l.nat? "o") (← l.nat? "src"))
   | "from_ull" => do pure (.fromUll (← l.nat? "o") ((← l.nat? "hi") * 2 ^ 32 + (← l.nat? "lo")))
   | "from_str" => do
-    let n ← match l.pos? "n" with | some Option.none => some NPOS | some (some n) => some n | Option.none => Option.none
+    -- an absent key = an argument that is not passed (trailing arguments only); `ct` (the character
+    -- type of the harness instantiation) does not enter the model: a character is its code unit value
     let str ← l.natList? "s"
-    let zeroCh := (l.nat? "zero").getD 48
-    let oneCh := (l.nat? "one").getD 49
+    let o ← l.nat? "o"
+    let n? : Option Nat ← match l.pos? "n" with
+      | some Option.none => some (some NPOS) | some (some n) => some (some n) | Option.none => some Option.none
+    let pos? := l.nat? "pos"
+    let zero? := l.nat? "zero"
+    let one? := l.nat? "one"
+    let prefixOk (as : List Bool) : Bool := (as.dropWhile id).all (fun b => !b)
     match (l.str? "ov").getD "sv" with
-    | "sv" => pure (.fromStr (← l.nat? "o") str (← l.nat? "pos") n zeroCh oneCh)
-    | "cstr" => pure (.fromCstr (← l.nat? "o") str n zeroCh oneCh)
+    | "sv" =>
+      if !prefixOk [pos?.isSome, n?.isSome, zero?.isSome, one?.isSome] then Option.none else
+      match pos?, n?, zero?, one? with
+      | some pos, some n, some z, some c => pure (.fromStr o str pos n z c)
+      | _, _, _, _ => pure (.fromStrD o str pos? n? zero? one?)
+    | "cstr" =>
+      if pos?.isSome || !prefixOk [n?.isSome, zero?.isSome, one?.isSome] then Option.none else
+      match n?, zero?, one? with
+      | some n, some z, some c => pure (.fromCstr o str n z c)
+      | _, _, _ => pure (.fromCstrD o str n? zero? one?)
     | _ => Option.none
   | _ => Option.none
 
 def opTarget : Op → Nat
   | .setAll o | .resetAll o | .flipAll o | .set o _ _ | .reset o _ | .flip o _ | .refAssign o _ _
   | .refFlip o _ | .refCopy o _ _ _ | .andA o _ | .orA o _ | .xorA o _ | .band o _ _ | .bor o _ _
-  | .bxor o _ _ | .assign o _ | .not o _ | .fromUll o _ | .fromStr o _ _ _ _ _ | .fromCstr o _ _ _ _ => o
+  | .bxor o _ _ | .assign o _ | .not o _ | .fromUll o _ | .fromStr o _ _ _ _ _ | .fromCstr o _ _ _ _
+  | .setD o _ | .fromStrD o _ _ _ _ _ | .fromCstrD o _ _ _ _ => o
 
 /-- members that exist on `etl::bitset` only -/
 def bsOnly : Op → Bool
-  | .not _ _ | .fromStr _ _ _ _ _ _ | .fromCstr _ _ _ _ _ => true
+  | .not _ _ | .fromStr _ _ _ _ _ _ | .fromCstr _ _ _ _ _ | .fromStrD _ _ _ _ _ _ | .fromCstrD _ _ _ _ _ => true
   | _ => false
 
 def step (st : St) (l : Line) : St × String :=
@@ -110,7 +129,6 @@ def step (st : St) (l : Line) : St × String :=
         | _ => Option.none
       match kk with
       | some (k, bs) =>
-        if N = 0 then bad else
         let st' : St := { N := N, k := k, bs := bs, m := .ok (mTable (Store.init N k)), s := sTable N Spec.Store.init }
         (st', out (fmtE id (dumpM N bs (Store.init N k 0))) (dumpS N (Spec.Store.init 0)))
       | Option.none => bad
@@ -141,11 +159,13 @@ def step (st : St) (l : Line) : St × String :=
     if !st.bs then bad else
     match l.nat? "o" with
     | some o =>
+      -- a failed "value fits" contract of the model is what std reports as `overflow_error`
       let m := match st.m with
         | .error e => e.fmt
         | .ok ms => match toUnsigned st.N (mStore st.N ms o) with
-          | Option.none => "absent"
-          | some r => fmtE toString r
+          | .ok r => toString r
+          | .error (.pre _) => "overflow"
+          | .error e => e.fmt
       let v := Spec.toNat st.N (sStore st.s o)
       -- [bitset.members]: throws overflow_error if the value does not fit
       let s := if v < 2 ^ 64 then toString v else "overflow"
@@ -155,12 +175,18 @@ def step (st : St) (l : Line) : St × String :=
     if !st.bs then bad else
     match l.nat? "o", l.nat? "cap" with
     | some o, some cap =>
-      let zeroCh := (l.nat? "zero").getD 48
-      let oneCh := (l.nat? "one").getD 49
+      let zero? := l.nat? "zero"
+      let one? := l.nat? "one"
+      if one?.isSome && zero?.isNone then bad else
       let m := do
         let ms ← st.m
-        C17.toStr st.N (mStore st.N ms o) zeroCh oneCh cap
-      (st, out (fmtE fmtNatList m) (fmtNatList (Spec.toStr st.N (sStore st.s o) zeroCh oneCh)))
+        match zero?, one? with
+        | some z, some c => C17.toStr st.N (mStore st.N ms o) z c cap
+        | _, _ => C17.toStrD st.N (mStore st.N ms o) zero? one? cap
+      let s := match zero?, one? with
+        | some z, some c => Spec.toStr st.N (sStore st.s o) z c
+        | _, _ => Spec.toStrD st.N (sStore st.s o) zero? one?
+      (st, out (fmtE fmtNatList m) (fmtNatList s))
     | _, _ => bad
   | _ =>
     match parseOp l with
